@@ -1,5 +1,6 @@
 import MuscleModel.Engines.Common
 import MuscleModel.Filter.Archive
+import MuscleModel.Filter.Parser
 
 /-! Engine `qf` (C14): four filter slots.
 
@@ -8,6 +9,10 @@ import MuscleModel.Filter.Archive
 * `rt <i> <j>`               slot j := `CreateQueryFilter(SaveToArchive(slot i))` → `ok` / `err` / `none`
 * `arch <i>`                 canonical dump of `SaveToArchive(slot i)` (or `none`)
 * `eval <i> <message hex> [<node name hex> <child count>]` → `true` / `false` (`none`, `badmsg`)
+* `expr <expression hex>`   `CreateQueryFilterFromExpression(string)` → `ok <archive dump of the filter>` / `err`
+  (`?` when an operand goes through `atof` outside the exactly modelled subset)
+* `exprt <expression hex> <prefix form>`  same result as `expr`; the harness additionally checks (direct oracle) that
+  the filter equals the given tree, which is what the documented grammar says the expression denotes
 
 Prefix form of a tree (one token per argument; `-` = absent; byte strings `x<hex>`):
 `what lo hi` | `exists fn idx tc` | `num ty fn idx op mop val mask dflt` | `cc fn idx op mop val mask dflt`
@@ -166,8 +171,23 @@ def evalOp (s : Slots) (i : String) (hx : String) (nd : Option Node) : Slots × 
       | some f => if unpred f m then (s, "?") else (s, toString (eval noSm f m nd))
   | _, _ => (s, "bad-op")
 
+def exprOp (hx : String) : String :=
+  match bytesOfTok hx with
+  | some b =>
+    if b.contains 0 then "bad-op" else
+    match parseExpr b with
+    | .ok f => "ok " ++ dumpArch (toArchive f)
+    | .err => "err"
+    | .unk => "?"
+  | none => "bad-op"
+
 def step (s : Slots) (toks : List String) : Slots × String :=
   match toks with
+  | ["expr", hx] => (s, exprOp hx)
+  | "exprt" :: hx :: rest =>
+    match parseTree (rest.length + 1) rest with
+    | some (_, []) => (s, exprOp hx)
+    | _ => (s, "bad-op")
   | ["case", n] => (List.replicate nslots none, "case " ++ n)
   | "tree" :: i :: rest =>
     match nat? i with
